@@ -101,6 +101,12 @@ META = {
                         "classes are the printed strings key:%v(props) exactly as in the code; groups larger than 12 (unstable pdqsort) are outside the modelled domain",
                         "known finding K7: multi-part features are re-assembled only when they are ascending joins of ranges cut strictly inside a range"],
     },
+    "C11": {
+        "sections": [],
+        "rule": "21 operations (insert, embed, delete, erase, slice, wrap-around slice, concat of 2 and 3, reverse, rotate, complement, transcribe, with-bytes/features/info, repair, filter, sorted feature insertion, locate, search, match) x host lengths 4..6 x guest lengths 0..2 x byte spare capacity {0,1,8} x table spare capacity {0,1,4}, host and guest being adjacent sub-slices of ONE buffer: views of all arguments, the whole enclosing buffer and the spare table slots are compared before and after, and the operation is repeated to check it gives the same result; 400 (thorough 20000) random sequences of 1..4 operations on the same original value; byte-level and table-level storage effects (buffer after, result) compared with the GoSlice model.",
+        "assumptions": ["PARTIAL: Go's memory model beyond slices/arrays (GC, data races) is outside the model; Origin.Bytes converting its buffer in place is checked to be view-preserving by the oracle only",
+                        "the theorems cover the storage lines of Insert/Embed, Rotate, Concat, FeatureSlice.Insert and Delete's table (the operations that were writing into their arguments); the other operations allocate by construction (make/copy) and are covered by the oracle"],
+    },
 }
 
 
